@@ -55,6 +55,9 @@ def drivers(tier):
     d.append(('dv_met', sp))
     d.append(('cc', dict(starts=['a'], nodes=['x0', 'x1', 'y0', 'y1'], edges=[], incompat=[],
                          choices=[['X0', 'a', ['x0', 'x1']], ['X1', 'a', ['y0', 'y1']]], cc=[['LINKED', ['X0', 'X1']]])))
+    d.append(('cc4', dict(starts=['a'], nodes=['x0', 'x1', 'y0', 'y1', 'z0', 'z1', 'w0', 'w1'], edges=[], incompat=[],
+                          choices=[['X0', 'a', ['x0', 'x1']], ['X1', 'a', ['y0', 'y1']], ['X2', 'a', ['z0', 'z1']], ['X3', 'a', ['w0', 'w1']]],
+                          cc=[['LINKED', ['X0', 'X1']]])))
     return d
 
 
@@ -229,6 +232,24 @@ def run_driver(case, res):
             pass
     elif g.get_choice_constraints():
         feats['edit_constraint'] = 1
+        # a SECOND constraint on either side of (original, copy) when the graph already holds one
+        free = [c for c in sel if g.is_constrained_choice(c) is None]
+        if len(free) >= 2:
+            for side in ('copy', 'original'):
+                orig = vbuild.build(spec).dsg
+                cp = orig.copy()
+                target, other = (cp, orig) if side == 'copy' else (orig, cp)
+                tsel = sorted([n for n in target.graph.nodes if isinstance(n, SelectionChoiceNode) and
+                               target.is_constrained_choice(n) is None], key=b.name)
+                n_other_before = len(other.get_choice_constraints())
+                key_other_before = struct_key(b, other)
+                t2 = target.constrain_choices(ChoiceConstraintType.PERMUTATION, tsel[:2])
+                res['states'] += 1
+                if len(other.get_choice_constraints()) != n_other_before or struct_key(b, other) != key_other_before:
+                    viol('constraint-added-on-one-side-appears-on-the-other', dict(side=side))
+                    return
+                if not cmp_equal(t2, other, (side, 'second_constraint'), False):
+                    return
         unconstrained = vbuild.build(spec, constrain=False).dsg
         res['states'] += 1
         if struct_key(b, unconstrained)[:2] == struct_key(b, g)[:2] and not cmp_equal(unconstrained, g, ('without_constraint',), False):
